@@ -149,3 +149,68 @@ Example C11_nonvacuous :
   option_map (fun a => isort (pend (fes a))) (dispatch_all repaired P (boot 0 10 L pre)) = Some [(7, 4); (9, 2)] /\
   option_map log (dispatch_all repaired P (boot 0 10 (LCount 2) pre)) = Some [(0, 5); (3, 5)].
 Proof. vm_compute. repeat split. Qed.
+
+From DesVerif Require Import Runtime.ModelCq Runtime.Compose Runtime.ComposeProps.
+
+(* ---------------------------------------------------------------------------
+   The same for the runtime over the CALENDAR QUEUE.  Runtime/ModelCq.v is the
+   runtime model threading the concrete queue state of des-cqueue (cq_new_at n t
+   start, add, peek_time, fetch_next, len) for the parameters n, t of
+   Builder::cqueue_options; Runtime/Compose.v proves by forward simulation
+   (queue part: the refinement relation of C01) that it prints exactly what the
+   model over the specification prints.  [run_gen_cq repaired] is what the
+   extracted runner executes in the differential check. *)
+Theorem C11_run_over_cqueue_eq_run_over_spec :
+  (forall input : list N, run_gen_cq repaired input = run_gen repaired input) /\
+  (forall (n t : N) (sc : script), n <> 0 -> t <> 0 -> crun_script repaired n t sc = run_script repaired sc).
+Proof. split; [exact run_over_cqueue_eq_run_over_spec|exact run_script_over_cqueue]. Qed.
+Print Assumptions C11_run_over_cqueue_eq_run_over_spec.
+
+(* the headline statements, for every bucket count n >= 1 and width t >= 1 *)
+Theorem C11_limited_log_is_longest_admissible_prefix_cq :
+  forall (n t : N) (P : prog) (S B : N) (pre : list (N * N)) (L : lim), n <> 0 -> t <> 0 ->
+  exists u a,
+    cdispatch_all repaired P (cboot n t S B LNone pre) = Some u /\
+    cdispatch_all repaired P (cboot n t S B L pre) = Some a /\
+    clog a = lprefix L 0 (clog u).
+Proof. exact limited_log_cq. Qed.
+Print Assumptions C11_limited_log_is_longest_admissible_prefix_cq.
+
+(* [cremaining] drains the calendar queue with fetch_next as finish does *)
+Theorem C11_nothing_lost_cq :
+  forall (n t : N) (P : prog) (S B : N) (pre : list (N * N)) (L : lim) (a : rtc), n <> 0 -> t <> 0 ->
+  cdispatch_all repaired P (cboot n t S B L pre) = Some a ->
+  Permutation (accepted (cadds a)) (handled (clog a) ++ isort (cremaining (cfes a))) /\
+  ple_sorted (isort (cremaining (cfes a))) /\
+  cfinish a = OFinal (N.of_nat (length (clog a))) (last (map snd (clog a)) S) (clog a) (cadds a) (isort (cremaining (cfes a))).
+Proof. exact nothing_lost_cq. Qed.
+Print Assumptions C11_nothing_lost_cq.
+
+Theorem C11_event_count_limit_cq :
+  forall (n t : N) (P : prog) (S B : N) (pre : list (N * N)) (k : N), n <> 0 -> t <> 0 ->
+  exists u a, cdispatch_all repaired P (cboot n t S B LNone pre) = Some u /\
+              cdispatch_all repaired P (cboot n t S B (LCount k) pre) = Some a /\
+              clog a = firstn (N.to_nat k) (clog u).
+Proof. exact count_limit_cq. Qed.
+Print Assumptions C11_event_count_limit_cq.
+
+Theorem C11_time_limit_cq :
+  forall (n t : N) (P : prog) (S B : N) (pre : list (N * N)) (T : N), n <> 0 -> t <> 0 ->
+  exists u a, cdispatch_all repaired P (cboot n t S B LNone pre) = Some u /\
+              cdispatch_all repaired P (cboot n t S B (LTime T) pre) = Some a /\
+              clog a = filter (fun e => snd e <=? T) (clog u).
+Proof. exact time_limit_cq. Qed.
+Print Assumptions C11_time_limit_cq.
+
+(* all loops terminate, the bucket scans of fetch_next / peek_time included *)
+Theorem C11_run_total_cq : forall (n t : N) (sc : script), n <> 0 -> t <> 0 -> ~ In OFuel (crun_script repaired n t sc).
+Proof. exact run_total_cq. Qed.
+Print Assumptions C11_run_total_cq.
+
+Example C11_nonvacuous_cq :
+  let P := [[(0, 0, 3); (0, 2, 4)]] in
+  let pre := [(5, 0); (5, 1); (9, 2); (5, 1)] in
+  let L := LOr (LAnd (LCount 2) (LTime 6)) (LTime 8) in
+  option_map clog (cdispatch_all repaired P (cboot 3 2 0 10 L pre)) = Some [(0, 5); (3, 5); (1, 5); (1, 5)] /\
+  option_map (fun a => isort (cremaining (cfes a))) (cdispatch_all repaired P (cboot 3 2 0 10 L pre)) = Some [(7, 4); (9, 2)].
+Proof. vm_compute. split; reflexivity. Qed.
